@@ -106,8 +106,24 @@ def sar (s x : Nat) : Nat :=
   let sh := asU64Sat s
   if sh < 256 then arithShr x sh else if bit x 255 then W - 1 else 0
 
-/-- `log2floor`: limb scan, 0 for 0 -/
-def log2floor (v : Nat) : Nat := if v = 0 then 0 else v.log2
+/-- `value.as_limbs()[i]`: the `i`-th little-endian 64-bit limb -/
+def limb (v i : Nat) : Nat := (v / 2^(64 * i)) % 2^64
+
+/-- `u64::leading_zeros` (primitive): 64 for 0, else 63 - floor(log2 x) -/
+def lz64 (x : Nat) : Nat := if x = 0 then 64 else 63 - x.log2
+
+/-- the loop of `log2floor`: `n` = number of limbs still to scan (the Rust `i` is `n - 1`),
+`l` = the running bit count; the first non-zero limb from the top decides -/
+def log2floorFrom (v : Nat) : Nat → Nat → Nat
+  | 0, l => l
+  | n+1, l =>
+    if limb v n = 0 then log2floorFrom v n (l - 64)
+    else
+      let l := l - lz64 (limb v n)
+      if l = 0 then l else l - 1
+
+/-- `log2floor`: limb scan from the most significant limb, 0 for 0 -/
+def log2floor (v : Nat) : Nat := log2floorFrom v 4 256
 
 /-- `exp_cost(spec, power)`; `sd` = SPURIOUS_DRAGON enabled -/
 def expCost (sd : Bool) (power : Nat) : Option Nat :=
